@@ -694,6 +694,269 @@ def run_history_cases(cases, res):
         if f6 and not any(s.get("part") == "history" for s in res.samples):
             res.sample(dict(part="history", events=[e if e[0] != "r" else ["r", e[1][:24] + "..."] for e in c["events"]], observed=o), limit=10)
 
+
+# ---------------------------------------------------------------------------------------------
+# part 2c: histories with OBJECT IDENTITY (heap machine of Model/ScheduleHeap.lean): the client keeps
+# Schedule objects across later responses and edits / commits through the objects it holds.
+# Object ids: every accepted response allocates one id per entry, in entry order.
+
+
+def gen_heap_history(rng, i):
+    pool = rng.sample(range(40), rng.choice([1, 2, 2, 3]))
+    base = {j: mk_entry(rng, j) for j in pool}
+    n_alloc = 0
+    cur = {}          # idx -> object id the device holds now
+    handles = []      # ids the client holds
+    evs = []
+
+    def receive(entries):
+        nonlocal n_alloc, cur
+        evs.append(["r", mk_response(rng, entries).hex()])
+        cur = {}
+        for k, e in enumerate(entries):
+            cur[e["idx"]] = n_alloc + k
+        n_alloc += len(entries)
+
+    receive([base[j] for j in pool])
+    deferred = i % 2 == 1
+    for _ in range(rng.randint(4, 14)):
+        r = rng.random()
+        idx = rng.choice(pool)
+        if r < 0.15 and idx in cur:
+            evs.append(["k", idx])
+            handles.append(cur[idx])
+        elif r < 0.30:
+            evs.append(["e"] + rnd_edit(rng, idx, malformed=0.05))
+        elif r < 0.50 and handles:
+            e = rnd_edit(rng, 0, malformed=0.05)
+            evs.append(["he", rng.choice(handles)] + e[1:])
+        elif r < 0.60:
+            evs.append(["c", idx])
+            if not deferred:
+                evs.append(["d"])
+        elif r < 0.75 and handles:
+            evs.append(["hc", rng.choice(handles)])
+            if not deferred or rng.random() < 0.3:
+                evs.append(["d"])
+        elif r < 0.80:
+            evs.append(["d"])
+        else:
+            kind = rng.choice(["same", "same", "late-slot", "different", "subset", "reordered", "dup"])
+            members = list(pool)
+            if kind == "subset" and len(pool) > 1:
+                members = rng.sample(pool, len(pool) - 1)
+            if kind == "reordered":
+                rng.shuffle(members)
+            ent = []
+            for j in members:
+                e = dict(base[j])
+                if kind == "late-slot":
+                    e["bm"] = flip_slot(bytes.fromhex(e["bm"]), 48 * rng.randrange(7) + rng.randrange(2, 48)).hex()
+                elif kind == "different":
+                    e = mk_entry(rng, j)
+                base[j] = e
+                ent.append(e)
+            if kind == "dup":
+                ent.append(dict(ent[0]))
+            receive(ent)
+    evs += [["d"]] * (sum(1 for e in evs if e[0] in ("c", "hc")) + 1)
+    return dict(part="heap", cls="deferred" if deferred else "immediate", events=evs)
+
+
+def run_heap_impl(cases):
+    from pyplumio.devices.ecomax import EcoMAX
+    from pyplumio.frames.responses import SchedulesResponse
+    from pyplumio.structures.network_info import NetworkInfo
+    from pyplumio.structures.schedules import SCHEDULES
+
+    async def quiesce():
+        me = asyncio.current_task()
+        for _ in range(10000):
+            if not [t for t in asyncio.all_tasks() if t is not me and not t.done()]:
+                return
+            await asyncio.sleep(0)
+        raise RuntimeError("no quiescence")
+
+    async def one(c):
+        asyncio.get_running_loop().set_exception_handler(lambda *_: None)
+        device = EcoMAX(asyncio.Queue(), NetworkInfo())
+        registry = {}           # object id -> Schedule object (as handed to a subscriber of "schedules")
+        seen = []               # dicts the subscriber received
+
+        async def on_schedules(value):
+            seen.append(value)
+
+        device.subscribe("schedules", on_schedules)
+        n_alloc = 0
+        outs = []
+        notes = []
+        try:
+            for ev in c["events"]:
+                if ev[0] == "r":
+                    raw = bytes.fromhex(ev[1])
+                    before = len(seen)
+                    try:
+                        device.handle_frame(SchedulesResponse(message=bytearray(raw)))
+                        outs.append("received")
+                    except Exception:  # noqa: BLE001
+                        outs.append("err")
+                    await quiesce()
+                    if len(seen) > before and isinstance(seen[-1], dict):
+                        idxs = [raw[3 + 47 * k] for k in range(raw[2])] if len(raw) >= 3 else []
+                        for k, j in enumerate(idxs):
+                            if j < 40 and k == max(p for p, q in enumerate(idxs) if q == j):
+                                registry[n_alloc + k] = seen[-1].get(SCHEDULES[j])
+                        n_alloc += len(idxs)
+                elif ev[0] == "k":
+                    try:
+                        obj = device.data["schedules"][SCHEDULES[ev[1]]]
+                        hid = next((h for h, o in registry.items() if o is obj), None)
+                        outs.append("h%s" % ("?" if hid is None else hid))
+                    except Exception as e:  # noqa: BLE001
+                        outs.append(type(e).__name__)
+                elif ev[0] in ("e", "he"):
+                    _, ref, day, st, a, b = ev
+                    try:
+                        sched = device.data["schedules"][SCHEDULES[ref]] if ev[0] == "e" else registry[ref]
+                        getattr(sched, day).set_state(st, a, b)
+                        outs.append("ok")
+                    except Exception as e:  # noqa: BLE001
+                        outs.append(type(e).__name__)
+                elif ev[0] in ("c", "hc"):
+                    try:
+                        sched = device.data["schedules"][SCHEDULES[ev[1]]] if ev[0] == "c" else registry[ev[1]]
+                        await sched.commit()
+                        await quiesce()
+                        outs.append("queued")
+                    except Exception as e:  # noqa: BLE001
+                        outs.append(type(e).__name__)
+                else:
+                    if device.queue.empty():
+                        outs.append("idle")
+                    else:
+                        req = device.queue.get_nowait()
+                        outs.append(bytes(req.message).hex() if type(req).__name__ == "SetScheduleRequest" else "!" + type(req).__name__)
+            return outs
+        finally:
+            await device.shutdown()
+
+    async def main():
+        return [await one(c) for c in cases]
+
+    return vloop.run(main())
+
+
+def heap_oracle(c):
+    """the statement per OBJECT: content of an object = the bitmap it was received with + exactly the edits
+    addressed to it, in order; a commit (through the device or through a handle) sends [1, index, switch,
+    parameter of the device for that index] + the content of THAT object.  -> {drain position: (snapshot, commit pos, object)}"""
+    content, owner = {}, {}      # object id -> bytearray, schedule index
+    cur, sw, par = {}, {}, {}
+    n_alloc = 0
+    queue, drains = [], {}
+
+    def apply(h, day, st, a, b):
+        if h in content and st in STATES and a in TIMES and b in TIMES:
+            lo, hi = TIMES.index(a), (47 if b == "00:00" else TIMES.index(b))
+            if hi > lo:
+                d = DAYS.index(day)
+                for i in range(lo, hi + 1):
+                    if st in ON:
+                        content[h][6 * d + i // 8] |= 0x80 >> (i % 8)
+                    else:
+                        content[h][6 * d + i // 8] &= ~(0x80 >> (i % 8)) & 0xFF
+
+    for pos, ev in enumerate(c["events"]):
+        if ev[0] == "r":
+            resp = bytes.fromhex(ev[1])
+            if len(resp) < 3:
+                cur = {}
+                continue
+            n = resp[2]
+            if len(resp) < 3 + 47 * n:
+                continue
+            ents = [resp[3 + 47 * k: 3 + 47 * (k + 1)] for k in range(n)]
+            if any(e[0] >= 40 for e in ents):
+                continue
+            cur = {}
+            for k, e in enumerate(ents):
+                content[n_alloc + k] = bytearray(e[5:])
+                owner[n_alloc + k] = e[0]
+                cur[e[0]] = n_alloc + k
+                sw[e[0]] = e[1]
+                if tuple(e[2:5]) != (255, 255, 255):
+                    par[e[0]] = e[2]
+            n_alloc += n
+        elif ev[0] == "e":
+            if ev[1] in cur:
+                apply(cur[ev[1]], *ev[2:])
+        elif ev[0] == "he":
+            apply(ev[1], *ev[2:])
+        elif ev[0] in ("c", "hc"):
+            h = cur.get(ev[1]) if ev[0] == "c" else (ev[1] if ev[1] in content else None)
+            if h is not None:
+                idx = owner[h]
+                if idx in cur and idx in sw and idx in par:
+                    queue.append(((bytes([1, idx, sw[idx], par[idx]]) + bytes(content[h])).hex(), pos, h, dict(cur)))
+        elif ev[0] == "d":
+            if queue:
+                drains[pos] = queue.pop(0)
+    return drains
+
+
+def run_heap_cases(cases, res):
+    def tok(ev):
+        if ev[0] == "r":
+            return "r:" + hexs(bytes.fromhex(ev[1]))
+        if ev[0] in ("e", "he"):
+            _, i, d, st, a, b = ev
+            return f"{ev[0]}:{i},{d},{state_token(st)},{parse_time(a)},{parse_time(b)}"
+        if ev[0] in ("c", "k", "hc"):
+            return f"{ev[0]}:{ev[1]}"
+        return "d"
+
+    answers = driver_batch("s.heap " + " ".join(tok(ev) for ev in c["events"]) for c in cases)
+    obs = run_heap_impl(cases)
+    for c, ans, o in zip(cases, answers, obs):
+        res.count("heap:" + c["cls"])
+        model = ans.split()
+        drains = heap_oracle(c)
+        res.case(json.dumps(c["events"]), nontrivial=bool(drains))
+        accepted = list(model)
+        for pos, (snap, cpos, h, cur_at_commit) in drains.items():
+            cev = c["events"][cpos]
+            stale = cev[0] == "hc" and h not in cur_at_commit.values()
+            res.count("heap-drain:" + ("commit-through-device" if cev[0] == "c" else "commit-through-stale-handle" if stale else "commit-through-current-handle"))
+            # an edit that hits the SAME OBJECT between commit and write (finding F6)
+            later_edit = False
+            cur = dict(cur_at_commit)
+            for e in c["events"][cpos + 1: pos]:
+                if e[0] == "he" and e[1] == h:
+                    later_edit = True
+                elif e[0] == "e" and cur.get(e[1]) == h:
+                    later_edit = True
+                elif e[0] == "r":
+                    cur = {}     # conservatively: after a response the device holds other objects
+            got = o[pos] if pos < len(o) else None
+            if got != snap:
+                if later_edit:
+                    res.fail("spec", c, dict(drain_event=pos, commit_event=cpos, object=h, commit_time_payload=snap), got,
+                             "the transmitted set-schedule payload is not the week as committed: an edit made after commit() "
+                             "and before the write is transmitted too", finding="F6")
+                else:
+                    res.fail("spec", c, dict(drain_event=pos, commit_event=cpos, object=h, commit_time_payload=snap), got,
+                             "commit() does not transmit [1, index, switch, parameter] + the bitmap of the schedule OBJECT it was called on "
+                             "(the week that object was received with, with exactly the edits made to it)")
+            elif later_edit and pos < len(accepted) and accepted[pos] != snap:
+                accepted[pos] = snap
+                res.count("heap-drain:F6-not-reproduced")
+        if o != accepted:
+            k = next((i for i, (x, y) in enumerate(zip(o, accepted)) if x != y), min(len(o), len(accepted)))
+            res.fail("corr", c, dict(model=accepted[k] if k < len(accepted) else None, at_event=k),
+                     dict(impl=o[k] if k < len(o) else None), "heap machine and device differ on a history with kept Schedule objects")
+        if any(e[0] == "hc" for e in c["events"]) and not any(s.get("part") == "heap" for s in res.samples):
+            res.sample(dict(part="heap", events=[e if e[0] != "r" else ["r", e[1][:24] + "..."] for e in c["events"]], observed=o), limit=12)
+
 # ---------------------------------------------------------------------------------------------
 # part 3: codec functions directly (split / join on all bytes, decode / encode on random bitmaps)
 
@@ -762,6 +1025,9 @@ def run(ctx):
     run_set_cases(set_cases, res)
     run_commit_cases(commit_cases, res)
     run_history_cases(hist_cases, res)
+    heap_cases = [c for c in corpus if c.get("part") == "heap"] + \
+        [gen_heap_history(rng, i) for i in range(400 if ctx["tier"] == "quick" else 10000)]
+    run_heap_cases(heap_cases, res)
     run_codec(rng, ctx["tier"], res)
     res.extra["aligned_pairs_enumerated_completely"] = True
     res.extra["schedule_kinds_committed"] = len({c["commit"] for c in commit_cases})
@@ -777,6 +1043,8 @@ def replay(ctx):
         run_commit_cases([c], res)
     elif c.get("part") == "history":
         run_history_cases([c], res)
+    elif c.get("part") == "heap":
+        run_heap_cases([c], res)
     elif c.get("part") == "set":
         c = dict(c)
         c.setdefault("how", "set_state")
